@@ -16,12 +16,16 @@ type FamilyNode struct {
 	// cacheMutex guards the lazily filled husband and wife when they are read
 	// by several goroutines at once (see IndividualNodes.Compare).
 	cacheMutex sync.Mutex
+
+	// cacheEpoch is the edit epoch (see nodesChanged) the husband and wife
+	// were looked up in.
+	cacheEpoch uint64
 }
 
 func newFamilyNode(document *Document, pointer string, children ...Node) *FamilyNode {
 	return &FamilyNode{
 		newSimpleDocumentNode(document, TagFamily, "", pointer, children...),
-		false, false, nil, nil, sync.Mutex{},
+		false, false, nil, nil, sync.Mutex{}, 0,
 	}
 }
 
@@ -33,6 +37,7 @@ func (node *FamilyNode) Husband() (husband *HusbandNode) {
 
 	node.cacheMutex.Lock()
 	defer node.cacheMutex.Unlock()
+	node.dropOutdatedCache()
 
 	if node.cachedHusband {
 		return node.husband
@@ -60,6 +65,7 @@ func (node *FamilyNode) Wife() (wife *WifeNode) {
 
 	node.cacheMutex.Lock()
 	defer node.cacheMutex.Unlock()
+	node.dropOutdatedCache()
 
 	if node.cachedWife {
 		return node.wife
@@ -205,6 +211,7 @@ func (node *FamilyNode) SetWifePointer(pointer string) *FamilyNode {
 	value := fmt.Sprintf("@%s@", pointer)
 	if wife != nil {
 		wife.value = value
+		nodesChanged()
 	}
 
 	node.AddNode(newNode(nil, node, TagWife, value, ""))
@@ -218,6 +225,7 @@ func (node *FamilyNode) SetHusbandPointer(pointer string) *FamilyNode {
 	value := fmt.Sprintf("@%s@", pointer)
 	if husband != nil {
 		husband.value = value
+		nodesChanged()
 	}
 
 	husbandNode := newNode(nil, node, TagHusband, value, "")
@@ -225,6 +233,15 @@ func (node *FamilyNode) SetHusbandPointer(pointer string) *FamilyNode {
 	node.cachedHusband = false
 
 	return node
+}
+
+// dropOutdatedCache forgets the husband and wife if anything has changed since
+// they were looked up. The caller holds cacheMutex.
+func (node *FamilyNode) dropOutdatedCache() {
+	if epoch := currentEditEpoch(); node.cacheEpoch != epoch {
+		node.resetCache()
+		node.cacheEpoch = epoch
+	}
 }
 
 func (node *FamilyNode) resetCache() {
